@@ -29,7 +29,7 @@ class C05(Check):
         q = tier == 'quick'
         yield from families.seats_ties(3, spaces.U(3, 0, 5), seats=(1, 2), cfgs=D)
         yield from families.seats_ties(3, spaces.U(3, 0, 4), seats=(1, 2), ties='id', cfgs=menu)
-        yield from families.seats_ties(4, spaces.W(4, 2, 3, (1, 2, 3)), seats=(1, 2, 3), ties='id', cfgs=D)
+        yield from families.seats_ties(4, spaces.W(4, 2, 3, (1, 2, 3)), seats=(1, 2, 3), ties='id', cfgs=D + [{'rule': 'wigm', 'defeat_batch': 'zero'}])
         yield from families.seats_ties(4, spaces.W(4, 3, 3, (1, 2)) if q else spaces.W(4, 4, 3, (1, 2, 3)), seats=(2, 3), ties='id',
                                        cfgs=[{'rule': r} for r in configs.FAST5] if q else D)
         batch = [{'rule': 'wigm-prf-batch'}, {'rule': 'cfer-batch'}, {'rule': 'mpls'}, {'rule': 'meek'}]
